@@ -89,9 +89,7 @@ class _Subst(ast.NodeTransformer):
 
 
 def subst(expr, env):
-    if not env:
-        return expr
-    return _Subst(env).visit(clone(expr))
+    return _Subst(env or {}).visit(clone(expr))
 
 
 class Exit:
@@ -207,13 +205,24 @@ class Interp:
             self.effects.append(f)
 
     def _resolve_ifexp(self, e):
-        if isinstance(e, ast.IfExp):
-            try:
-                t = self.truth(e.test, True)
-            except AnalysisError:
-                return e
-            return self._resolve_ifexp(e.body if t else e.orelse)
-        return e
+        """resolve every decidable conditional expression (also nested in call arguments),
+        except inside comprehensions / lambdas whose tests may use bound variables"""
+        interp = self
+
+        class R(ast.NodeTransformer):
+            def visit_IfExp(self, node):
+                try:
+                    t = interp.truth(node.test, True)
+                except AnalysisError:
+                    return self.generic_visit(node)
+                return self.visit(node.body if t else node.orelse)
+
+            def _skip(self, node):
+                return node
+
+            visit_ListComp = visit_SetComp = visit_DictComp = visit_GeneratorExp = visit_Lambda = _skip
+
+        return R().visit(e)
 
     # ------------------------------------------------------------- statements
     def run(self, stmts):
@@ -280,10 +289,10 @@ class Interp:
             if r:
                 return Exit("raise", ast.Name(id=r, ctx=ast.Load()), st)
             if self.watch and isinstance(st.value, ast.Call):
+                self._record_calls(st.value)
                 f = st.value.func
                 nm = f.id if isinstance(f, ast.Name) else f.attr if isinstance(f, ast.Attribute) else None
                 if nm in self.watch:
-                    self.value(st.value)
                     return None
             self.emit(self._sub_stmt(st), st)
             return None
